@@ -606,15 +606,115 @@ def gen(repo):
     # ---- apply_config: is the handle's in-memory config replaced before or after it is stored
     csrc, (_, cb, ce) = find_fn(S, "commands/config.rs", "apply_config")
     cbody = csrc[cb:ce]
-    sets = [m.start() for m in re.finditer(r"\.set_config\s*\(", cbody)]
-    saves = [m.start() for m in re.finditer(r"(?<![\w.])save_config\s*\(", cbody)]
-    if len(sets) != 1 or len(saves) != 1:
-        raise ExtractError("apply_config: expected exactly one set_config and one save_config call (found %d / %d)" % (len(sets), len(saves)))
-    if not re.search(r"save_config\s*\([^;]*\)\s*\?\s*;", cbody):
-        raise ExtractError("apply_config: a failing save_config is no longer propagated with `?`")
-    out.append("(* commands/config.rs apply_config: `repo.set_config(new)` %s `save_config(..)?` *)" % ("precedes" if sets[0] < saves[0] else "follows"))
-    out.append("Definition config_set_before_save : bool := %s.\n" % ("true" if sets[0] < saves[0] else "false"))
-    meta["config_set_before_save"] = sets[0] < saves[0]
+    saves = [m for m in re.finditer(r"(?<![\w.])save_config\s*\(", cbody)]
+    if len(saves) != 1:
+        raise ExtractError("apply_config: expected exactly one save_config call (found %d)" % len(saves))
+    sv = saves[0]
+    sv_end = match_brace(cbody, sv.end() - 1, "(", ")")
+    after = cbody[sv_end + 1:].lstrip()
+    before = cbody[:sv.start()].rstrip()
+    fail_block = (0, 0)
+    restricts = False
+    if after.startswith("?"):
+        pass                                   # shape A: `save_config(..)?;` - a failure leaves the handle as it is
+    else:
+        # shape B: `if let Err(e) = save_config(..) { <on failure> return Err(e); }`
+        mh = re.search(r"if\s+let\s+Err\s*\(\s*(\w+)\s*\)\s*=\s*$", before)
+        if not mh or not after.startswith("{"):
+            raise ExtractError("apply_config: a failing save_config is neither propagated with `?` nor handled by `if let Err(e) = save_config(..) {..}`")
+        bo = cbody.index("{", sv_end)
+        bc = match_brace(cbody, bo)
+        blk = " ".join(cbody[bo + 1:bc].split())
+        fail_block = (bo, bc)
+        if not re.search(r"return Err\(\s*%s\s*\);$" % re.escape(mh.group(1)), blk):
+            raise ExtractError("apply_config: the failure branch of save_config does not end with `return Err(e);`")
+        rest = re.sub(r"return Err\(\s*%s\s*\);$" % re.escape(mh.group(1)), "", blk).strip()
+        if rest:
+            mr = re.fullmatch(r"if (\w+) == Some\(true\) \{ let mut (\w+) = repo\.config\(\)\.clone\(\); \2\.append_only = Some\(true\); repo\.set_config\(\2\); \}", rest)
+            if not mr:
+                raise ExtractError("apply_config: failure branch of save_config has an unknown shape: " + rest[:120])
+            md = re.search(r"let\s+%s\s*=\s*repo\.config\(\)\.append_only\s*;" % re.escape(mr.group(1)), cbody)
+            first_set = re.search(r"\.set_config\s*\(", cbody)
+            if not md or md.start() > sv.start() or (first_set and md.start() > first_set.start()):
+                raise ExtractError("apply_config: `%s` is not the append_only flag of the config held before the change" % mr.group(1))
+            restricts = True
+    sets = [m.start() for m in re.finditer(r"\.set_config\s*\(", cbody) if not (fail_block[0] < m.start() < fail_block[1])]
+    if len(sets) != 1:
+        raise ExtractError("apply_config: expected exactly one set_config call outside the failure branch (found %d)" % len(sets))
+    set_first = sets[0] < sv.start()
+    out.append("(* commands/config.rs apply_config: `repo.set_config(new)` %s `save_config(..)`; on a failed save the handle %s *)" % (
+        "precedes" if set_first else "follows", "keeps append_only = Some(true) if the previous config had it" if restricts else "is left as it is"))
+    out.append("Definition config_set_before_save : bool := %s." % ("true" if set_first else "false"))
+    out.append("Definition config_restricts_on_failure : bool := %s.\n" % ("true" if restricts else "false"))
+    meta["config_set_before_save"] = set_first
+    meta["config_restricts_on_failure"] = restricts
+    # ---- Indexer (index/indexer.rs): when does it write an index file
+    isrc, ifns = S.files.get("index/indexer.rs", (None, None))
+    if isrc is None:
+        raise ExtractError("source file missing: index/indexer.rs")
+    maxc = int_expr(const_value(isrc, "MAX_COUNT"))
+    def ibody(fn):
+        _, (_, b, e) = find_fn(S, "index/indexer.rs", fn)
+        return " ".join(isrc[b + 1:e].split())
+    sv = ibody("save")
+    msave = re.fullmatch(r"if \(self\.file\.packs\.len\(\) \+ self\.file\.packs_to_delete\.len\(\)\) > 0 \{ _ = self\.be\.save_file\(&self\.file\)\?; \} Ok\(\(\)\)", sv)
+    if msave:
+        save_needs_packs = True
+    elif re.fullmatch(r"_ = self\.be\.save_file\(&self\.file\)\?; Ok\(\(\)\)", sv):
+        save_needs_packs = False
+    else:
+        raise ExtractError("Indexer::save has an unknown shape: " + sv[:120])
+    if ibody("finalize") != "self.save()":
+        raise ExtractError("Indexer::finalize is no longer `self.save()`")
+    aw = ibody("add_with")
+    if not re.search(r"self\.count \+= pack\.blobs\.len\(\);", aw) or not re.search(r"self\.file\.add\(pack, delete\);", aw):
+        raise ExtractError("Indexer::add_with no longer counts the blobs / adds the pack to the pending file")
+    mth = re.search(r"if self\.count >= constants::MAX_COUNT \|\| elapsed >= constants::MAX_AGE \{ self\.save\(\)\?; self\.reset\(\); \} Ok\(\(\)\)$", aw)
+    if not mth:
+        raise ExtractError("Indexer::add_with: the self-save test `count >= MAX_COUNT || elapsed >= MAX_AGE { save; reset }` not found")
+    # nothing else in add_with / add / add_remove may write
+    for fn in ("add", "add_remove", "has", "reset"):
+        b = ibody(fn)
+        if re.search(r"save|write_bytes|\.be\.", b):
+            raise ExtractError("Indexer::%s reaches the backend" % fn)
+    if ibody("add") != "self.add_with(pack, false)" or ibody("add_remove") != "self.add_with(pack, true)":
+        raise ExtractError("Indexer::add / add_remove are no longer thin wrappers of add_with")
+    rs = ibody("reset")
+    if "self.file = IndexFile::default();" not in rs or "self.count = 0;" not in rs:
+        raise ExtractError("Indexer::reset no longer clears the pending file and the count")
+    out.append("(* index/indexer.rs: add_with saves by itself once count >= MAX_COUNT (or MAX_AGE passed); finalize = save; save writes %s *)" % ("only a non-empty file" if save_needs_packs else "unconditionally"))
+    out.append("Definition indexer_max_count : N := %d%%N." % maxc)
+    out.append("Definition indexer_save_needs_packs : bool := %s.\n" % ("true" if save_needs_packs else "false"))
+    meta["indexer_max_count"] = maxc
+    # ---- TreeModifier / Rewriter (blob/tree/modify.rs, rewrite.rs): the dry_run flag handed to the
+    # constructor really guards every write of the object (this is what the dry-run condition
+    # attached to a `TreeModifier::new(.., dry_run)` / `Rewriter::new(.., dry_run)` site stands for)
+    msrc, _ = S.files.get("blob/tree/modify.rs", (None, None))
+    if msrc is None:
+        raise ExtractError("source file missing: blob/tree/modify.rs")
+    _, (_, b, e) = find_fn(S, "blob/tree/modify.rs", "save_tree")
+    st = " ".join(msrc[b + 1:e].split())
+    adds = list(re.finditer(r"self\.packer\.add\(", st))
+    if len(adds) != 1 or not re.search(r"if [^{}]*!self\.dry_run[^{}]*\{ self\.packer\.add\([^;]*\)\?; \}", st):
+        raise ExtractError("TreeModifier::save_tree: packer.add is no longer guarded by !self.dry_run")
+    _, (_, b, e) = find_fn(S, "blob/tree/modify.rs", "finalize")
+    fz = " ".join(msrc[b + 1:e].split())
+    if not re.fullmatch(r"if !self\.dry_run \{ (?:[^{}]*) \} Ok\(\(\)\)", fz):
+        raise ExtractError("TreeModifier::finalize: packer / indexer finalize no longer wrapped in `if !self.dry_run`")
+    _, (_, b, e) = find_fn(S, "blob/tree/modify.rs", "new")
+    nw = " ".join(msrc[b + 1:e].split())
+    if not re.search(r"Ok\(Self \{[^}]*\bdry_run\b[^}]*\}\)", nw):
+        raise ExtractError("TreeModifier::new no longer stores its dry_run argument")
+    other = [m for m in re.finditer(r"self\.(packer|indexer|be)\b[^;]*\.(add|finalize|save_file|write_bytes|remove|delete_list)\(", msrc)]
+    if len(other) != 3:
+        raise ExtractError("TreeModifier: expected exactly three writing calls (packer.add, packer.finalize, indexer finalize), found %d" % len(other))
+    rsrc, _ = S.files.get("blob/tree/rewrite.rs", (None, None))
+    if rsrc is None or not re.search(r"TreeModifier::new\(\s*be\s*,\s*index\s*,\s*config\s*,\s*dry_run\s*\)", rsrc):
+        raise ExtractError("Rewriter::new no longer hands its dry_run argument to TreeModifier::new")
+    if re.search(r"\.(save_file|write_bytes|remove|delete_list|save_list)\s*\(", rsrc):
+        raise ExtractError("blob/tree/rewrite.rs makes a direct storage call")
+    out.append("(* blob/tree/modify.rs, rewrite.rs: every write of a TreeModifier / Rewriter is under `!self.dry_run` (verified shape) *)")
+    out.append("Definition tree_modifier_dry_guarded : bool := true.\n")
     # save_config: cold (authoritative) config first, then the hot copy
     ssrc, (_, sb, se) = find_fn(S, "commands/config.rs", "save_config")
     sbody = ssrc[sb:se]
